@@ -177,9 +177,15 @@ def run_unoriented(case, rec):
     qx, qy = sas.q_points_2d(i, pars, 6, rng)
     model = sas.build(name)
     I2 = np.asarray(direct_model.call_kernel(model.make_kernel([qx, qy]), dict(pars)), float)
-    I1 = np.asarray(direct_model.call_kernel(model.make_kernel([np.hypot(qx, qy)]), dict(pars)), float)
+    qa = np.hypot(qx, qy)
+    I1 = np.asarray(direct_model.call_kernel(model.make_kernel([qa]), dict(pars)), float)
+    # |q| formed by the kernel may differ from numpy's by an ulp; sharp peaks amplify that, so the
+    # tolerance is the observed response of the 1-D kernel to a 2-ulp change of q
+    Ip = np.asarray(direct_model.call_kernel(model.make_kernel([qa*(1 + 4.5e-16)]), dict(pars)), float)
+    Im = np.asarray(direct_model.call_kernel(model.make_kernel([qa*(1 - 4.5e-16)]), dict(pars)), float)
     sc = float(np.max(np.abs(I1)))
-    rec.check("unoriented_depends_on_absq", core.close(I2, I1, 1e-12, 1e-14*sc),
+    tol = np.abs(Ip - I1) + np.abs(Im - I1) + 1e-12*np.abs(I1) + 1e-14*sc
+    rec.check("unoriented_depends_on_absq", bool(np.all(np.abs(I2 - I1) <= tol)),
               {"model": name, "pars": pars, "qx": qx, "qy": qy, "two_d": I2, "one_d_at_absq": I1})
     rec.set_shape((name, "unoriented"), True)
 
